@@ -305,6 +305,21 @@ Within(g, o) ==
     [] o.op = "add_module"    -> <<o.a, o.b>> \notin g.M /\ Card(ModulesOf(g, o.a)) < g.lim.modules
     [] OTHER                  -> FALSE
 
+\* the accepted call fills a registry exactly to a limit (coverage counter of the trace checker)
+AtLimit(g, o) ==
+  Within(g, o) /\
+  CASE o.op = "allow"         -> \/ Card(PairsOfKey(g.S, o.a)) = g.lim.rpk - 1
+                                 \/ o.a \notin KeysOfTopic(g.S, o.b) /\ Card(KeysOfTopic(g.S, o.b)) = g.lim.kpt - 1
+    [] o.op = "add_topic"     -> Card(g.T) = g.lim.topics - 1
+    [] o.op = "add_issuer"    -> Card(g.I) = g.lim.issuers - 1
+    [] o.op = "bind"          -> Card(g.S) = g.lim.max - 1
+    [] o.op = "bind_batch"    -> Card(g.S) + Len(o.xs) = g.lim.max \/ Len(o.xs) = g.lim.batch
+    [] o.op = "set_doc"       -> o.a \notin DOMAIN g.D /\ NDocs(g) = g.lim.max - 1
+    [] o.op = "add_identity"  -> Len(o.xs) = g.lim.countries
+    [] o.op = "add_countries" -> Len(g.pr[o.a].cs) + Len(o.xs) = g.lim.countries
+    [] o.op = "add_module"    -> Card(ModulesOf(g, o.a)) = g.lim.modules - 1
+    [] OTHER                  -> FALSE
+
 (* monitors -----------------------------------------------------------------------------------*)
 Flavours == {"keys", "cti", "binder", "docs", "irs", "modules"}
 Kinds == {"query", "refuse", "capacity", "enum"}
